@@ -101,6 +101,9 @@ type Store struct {
 	OnQuery             func(text string, args []driver.Value) RowSet
 	NoSavepoint         bool
 	BadConn             bool   // the injected fault, when it hits a call inside a transaction, is a lost connection (driver.ErrBadConn, sticky for that transaction)
+	BadConnOutside      bool   // the injected fault, when it hits a statement outside a transaction, is a lost connection too: database/sql repeats the call on other connections (natively: sqlBadConnRetries more driver calls, not counted, not logged) and they all fail, so driver.ErrBadConn reaches the caller once
+	badLeft             int    // native back end: repeated driver calls of the lost-connection statement still to fail
+	badText             string
 	Before              func() // called before every BEGIN/EXEC/QUERY/COMMIT boundary call, outside the driver lock (C07 pause point)
 }
 
@@ -153,11 +156,31 @@ func (s *Store) faultIn(tx *txState, ctx int) (error, bool) {
 		return driver.ErrBadConn, true
 	}
 	err := s.fault(ctx)
+	if err != nil && s.BadConnOutside && tx == nil && err != context.Canceled {
+		s.badLeft = sqlBadConnRetries
+		return driver.ErrBadConn, false
+	}
 	if err != nil && s.BadConn && tx != nil && err != context.Canceled {
 		tx.bad = true
 		return driver.ErrBadConn, false
 	}
 	return err, false
+}
+
+// badRetry: database/sql's repetitions of a statement whose connection was lost
+// outside a transaction (native back end only; the symbolic summaries of
+// *sql.DB/*sql.Stmt stand for the whole retry loop). The repetitions carry the
+// same text and follow the failed call directly; anything else ends them.
+func (s *Store) badRetry(tx *txState, text string) bool {
+	if s.badLeft == 0 {
+		return false
+	}
+	if tx != nil || (s.badText != "" && s.badText != text) {
+		s.badLeft = 0
+		return false
+	}
+	s.badLeft--
+	return true
 }
 
 // Calls is the number of fallible boundary calls made so far.
@@ -227,6 +250,9 @@ func (s *Store) Exec(tx *txState, ctx int, text string, args []driver.Value) (Re
 			return Result{}, errTxDone
 		}
 	}
+	if s.badRetry(tx, text) {
+		return Result{}, driver.ErrBadConn
+	}
 	if hasPrefix(text, "ROLLBACK TO SAVEPOINT ") {
 		// never failed: no client code can undo writes if the database refuses to
 		name := text[len("ROLLBACK TO SAVEPOINT "):]
@@ -246,6 +272,7 @@ func (s *Store) Exec(tx *txState, ctx int, text string, args []driver.Value) (Re
 		if !silent {
 			s.Log = append(s.Log, Event{Kind: "EXEC", Text: text, Args: args, Ctx: ctx, Tx: txid, Fail: true})
 		}
+		s.badText = text
 		return Result{}, err
 	}
 	if hasPrefix(text, "SAVEPOINT ") {
@@ -293,10 +320,14 @@ func (s *Store) Query(tx *txState, ctx int, text string, args []driver.Value) (R
 			return RowSet{}, errTxDone
 		}
 	}
+	if s.badRetry(tx, text) {
+		return RowSet{}, driver.ErrBadConn
+	}
 	if err, silent := s.faultIn(tx, ctx); err != nil {
 		if !silent {
 			s.Log = append(s.Log, Event{Kind: "QUERY", Text: text, Args: args, Ctx: ctx, Tx: txid, Fail: true})
 		}
+		s.badText = text
 		return RowSet{}, err
 	}
 	s.Log = append(s.Log, Event{Kind: "QUERY", Text: text, Args: args, Ctx: ctx, Tx: txid})
